@@ -1,3 +1,4 @@
+import Secp.Proofs.DriversVerify
 import Secp.Proofs.Ecdsa
 import Secp.Props.C03
 import Secp.Proofs.Slices
@@ -45,5 +46,17 @@ theorem verify_iff_unconditional (h : Bytes) (x y r s : Nat) (hQ : OnCurve x y) 
     `contracts_justified`) this is what makes the value-level model above faithful to the limb code. -/
 theorem verify_field_arithmetic_exact :
     Secp.Proofs.Slices.entriesOK ["github.com/ModChain/secp256k1.Signature.Verify", "github.com/ModChain/secp256k1.modNScalarToField", "github.com/ModChain/secp256k1.PublicKey.AsJacobian"] = true := by decide +kernel
+
+/-! ### Regenerated drivers (tools/gotr pass T8)
+
+`Secp.Gen.Drivers` is REGENERATED from /repo on every check run: the Go functions below translated
+statement by statement into Lean terms over the value-level primitives.  The theorems say the
+regenerated definitions EQUAL the hand-written models the theorems above are about. -/
+
+/-- `Signature.Verify` (signature.go) regenerated — zero checks, e, w = s⁻¹, u1·G + u2·Q, the Jacobian comparison
+    r·Z² = X and the second comparison (r+N)·Z² = X guarded by r < P−N — = `verifyM`, for every r < N, s, hash and key -/
+theorem verify_regenerated (r s v : Nat) (h : Bytes) (Q : Nat × Nat) (hr : r < N) :
+    Secp.Gen.Drivers.verify (r, s, v) h Q = verifyM h Q r s :=
+  Secp.Proofs.DriversVerify.verify_regenerated r s v h Q hr
 
 end Secp.Props.C02
